@@ -9,9 +9,11 @@
 import Mathlib.Tactic.NormNum
 import Mathlib.Algebra.Order.Field.Rat
 import OpmVerif.Proofs.Pvt
+import OpmVerif.Proofs.PvtRegion
+import OpmVerif.Gen.PvtRegion
 
 namespace OpmVerif.Props.C14
-open OpmVerif.Tab1D OpmVerif.Tab2D OpmVerif.Pvt
+open OpmVerif.Tab1D OpmVerif.Tab2D OpmVerif.Pvt OpmVerif.PvtRegion
 
 variable {K : Type} [Field K] [LinearOrder K] [IsStrictOrderedRing K]
 
@@ -103,6 +105,17 @@ theorem tab2d_node (t : Table K) (hs : StrictInc t.xPos) (hn : 2 ≤ t.xPos.leng
     (j : Nat) (hj : j < (col t.colY k).length) :
     Tab2D.eval t (nth t.xPos k) (nth (col t.colY k) j) = nth (col t.colV k) j :=
   Tab2D.eval_node t hs hn k hk hc hcn j hj
+
+/-- Along an under-saturated branch (a sample column with any number of rows), between two
+adjacent rows the 2-D function is the straight line through exactly these two rows: segment
+`j` of the branch is interpolated from rows `j`, `j+1`, never extrapolated from a neighbouring
+segment (the `ySegmentIndex` bisection returns the right segment for every column length). -/
+theorem tab2d_branch_segment (t : Table K) (hs : StrictInc t.xPos) (hn : 2 ≤ t.xPos.length)
+    (k : Nat) (hk : k < t.xPos.length) (hc : StrictInc (col t.colY k)) (hcn : 2 ≤ (col t.colY k).length)
+    (j : Nat) (hj : j + 1 < (col t.colY k).length) (y : K)
+    (h1 : nth (col t.colY k) j ≤ y) (h2 : y ≤ nth (col t.colY k) (j + 1)) :
+    Tab2D.eval t (nth t.xPos k) y = evalSeg (col t.colY k) (col t.colV k) j y :=
+  eval_on_branch_segment t hs hn k hk hc hcn j hj y h1 h2
 
 /-- On the guide curve the two columns are evaluated at their guide points: the 2-D value is
 the linear blend of the columns' values there (this is what makes the under-saturated surface
@@ -201,6 +214,83 @@ theorem psat_guess_table_is_node_list (l : List (K × K)) (h : AscFst l) :
     dedupAdj l = l ∧ sortPairs l = l :=
   ⟨dedupAdj_of_asc l h, sortPairs_of_asc l h⟩
 
+/-! ## Several PVT regions: which table is in effect (`PvtxTable`, simple table containers)
+
+`β` is whatever a deck record carries.  A keyword is described by the table of region 1 (`t`)
+and the tables of the further regions (`us`; `[]` = the region is defaulted with a lone `/`);
+`encode t us` is its flat record list with terminator records, as `PvtxTable::init` sees it. -/
+
+/-- `recordRanges` recovers exactly the regions' tables from the keyword's records (any number
+of regions, any table lengths, any pattern of defaulted regions). -/
+theorem region_ranges_recover_tables {β : Type} (t : List β) (us : List (List β)) :
+    (recordRanges (encode t us)).map (slice (encode t us)) = t :: us :=
+  recordRanges_encode t us
+
+/-- The backward search of `PvtxTable::init`: the result `s` is at or before `k`, everything
+strictly between `s` and `k` is defaulted, and `s` itself is not defaulted when region 1 is
+not. -/
+theorem region_source_is_last_nonempty (e : Nat → Bool) (k : Nat) (h0 : e 0 = false) :
+    searchBack e k ≤ k ∧ e (searchBack e k) = false ∧
+    ∀ j, searchBack e k < j → j ≤ k → e j = true :=
+  ⟨searchBack_le e k, searchBack_nonempty e k h0, fun j => searchBack_skipped e k j⟩
+
+/-- … and it is the only such index: *the* last non-defaulted table at or before region `k`
+(in particular not the first non-defaulted one of the keyword). -/
+theorem region_source_unique (e : Nat → Bool) (k s : Nat) (hs : s ≤ k) (hne : e s = false)
+    (hskip : ∀ j, s < j → j ≤ k → e j = true) : searchBack e k = s :=
+  searchBack_unique e k s hs hne hskip
+
+/-- `PvtxTable::init(keyword, k)` for every region `k` of every keyword whose first region is
+not defaulted: the records of the table found by that search. -/
+theorem region_init_spec {β : Type} (t : List β) (us : List (List β)) (k : Nat)
+    (hk : k < us.length + 1) (ht : t ≠ []) :
+    PvtRegion.init (encode t us) k =
+      .ok ((t :: us).getD (searchBack (fun j => ((t :: us).getD j []).isEmpty) k) []) :=
+  init_encode t us k hk ht
+
+/-- Specification of the whole resolution: region `k` receives table `s ≤ k`, that table is
+not defaulted, and every region strictly between `s` and `k` is defaulted. -/
+theorem region_table_is_last_given {β : Type} (ts rs : List (List β)) (h : resolve ts = some rs)
+    (k : Nat) (hk : k < ts.length) :
+    ∃ s, s ≤ k ∧ rs.getD k [] = ts.getD s [] ∧ ts.getD s [] ≠ [] ∧
+      ∀ j, s < j → j ≤ k → ts.getD j [] = [] :=
+  resolve_spec ts rs h k hk
+
+/-- `TableManager::initFullTables` over a keyword = `resolve` over its regions' tables. -/
+theorem region_keyword_resolution {β : Type} (t : List β) (us : List (List β)) (ht : t ≠ []) :
+    (resolve (t :: us)).map Except.ok = some (initAll (encode t us) : Except PvtRegion.Err _) :=
+  initAll_encode t us ht
+
+/-- Region 1 must not be defaulted: `init` refuses, and so does the whole keyword. -/
+theorem region_first_must_be_given {β : Type} (us : List (List β)) :
+    PvtRegion.init (encode ([] : List β) us) 0 = .error .cannotDefaultFirst ∧
+    initAll (encode ([] : List β) us) = .error .cannotDefaultFirst ∧
+    resolve (([] : List β) :: us) = none :=
+  ⟨init_encode_first_defaulted us, initAll_encode_first_defaulted us, resolve_first_defaulted us⟩
+
+/-- Without defaulted regions nothing changes; after the resolution no region is defaulted;
+resolving twice is resolving once. -/
+theorem region_resolution_idempotent {β : Type} (ts rs : List (List β)) (h : resolve ts = some rs) :
+    (∀ t ∈ rs, t ≠ []) ∧ resolve rs = some rs ∧ rs.length = ts.length :=
+  ⟨resolve_all_nonempty ts rs h, resolve_idempotent ts rs h, resolve_length ts rs h⟩
+
+theorem region_no_defaults_identity {β : Type} (ts : List (List β)) (h : ∀ t ∈ ts, t ≠ []) :
+    resolve ts = some ts :=
+  resolve_no_defaults ts h
+
+/-- PVDO/PVDG (`initSimpleTableContainer`, the `lastComplete` bookkeeping) and PVTO/PVTG
+(`PvtxTable::init`, the backward search) implement the same rule. -/
+theorem region_simple_tables_same_rule {β : Type} (ts : List (List β)) :
+    simpleResolve ts = resolve ts :=
+  simpleResolve_eq_resolve ts
+
+/-- The keyword routing regenerated from `TableManager.cpp`: PVTO and PVTG are built by
+`initFullTables` (`PvtxTable::init`), PVDO and PVDG by `initSimpleTableContainer`. -/
+theorem region_keyword_routing :
+    "PVTO" ∈ Gen.PvtRegion.fullTableKeywords ∧ "PVTG" ∈ Gen.PvtRegion.fullTableKeywords ∧
+    "PVDO" ∈ Gen.PvtRegion.simpleContainerKeywords ∧ "PVDG" ∈ Gen.PvtRegion.simpleContainerKeywords := by
+  decide
+
 /-! ## Non-vacuity -/
 
 example : StrictInc ([1, 2, 4] : List ℚ) := strictInc_three (by norm_num) (by norm_num)
@@ -220,5 +310,17 @@ example : StrictInc ([100, 200, 210, 400] : List ℚ) ∧ StrictIncY ([10, 20, 6
     rcases this with rfl | rfl | rfl <;>
     (have : i = 0 ∨ i = 1 ∨ i = 2 := by omega) <;>
     rcases this with rfl | rfl | rfl <;> first | omega | (simp [nth]; try norm_num)
+
+/-- three regions `T1, T2, /`: region 3 gets T2 (the last given), not T1 (the first given) -/
+example : resolve [[1, 2], [3], ([] : List Nat)] = some [[1, 2], [3], [3]] := by decide
+example : resolve [[1, 2], ([] : List Nat), [3], [], []] = some [[1, 2], [1, 2], [3], [3], [3]] := by decide
+example : PvtRegion.init (encode [1, 2] [[3], ([] : List Nat)]) 2 = .ok [3] := by decide
+example : encode [1, 2] [[3], ([] : List Nat)] = [some 1, some 2, none, some 3, none] := by decide
+example : recordRanges [some 1, some 2, none, some 3, none] = [(0, 2), (3, 4), (5, 5)] := by decide
+example : PvtRegion.init ([none, some 1] : List (Option Nat)) 0 = .error .cannotDefaultFirst := by decide
+example : simpleResolve [[1, 2], ([] : List Nat), [3], []] = some [[1, 2], [1, 2], [3], [3]] := by decide
+/-- a 7-row branch: segment 2 of the column is the line through rows 2 and 3 -/
+example : evalX ([1, 2, 3, 4, 5, 6, 7] : List ℚ) [10, 20, 40, 80, 160, 320, 640] (7 / 2) = 60 := by
+  simp [evalX, segIdx, evalSeg, nth, bisect]; norm_num
 
 end OpmVerif.Props.C14
